@@ -166,7 +166,7 @@ Lemma extend_loop_ok u st segs : forall s, path_text_ok u s ->
   exists s', psm_extend_loop dbg st (path_start u) s segs = Some s' /\ path_text_ok u s'.
 Proof.
   induction segs as [|seg rest IH]; intros s Hs; [exists s; split; [reflexivity | exact Hs]|].
-  cbn [psm_extend_loop]. destruct (list_eqb seg [46] || list_eqb seg [46; 46]); [apply IH; exact Hs|].
+  cbn [psm_extend_loop]. destruct (psm_skips seg); [apply IH; exact Hs|].
   set (ps := path_start u) in *.
   set (s1 := if (ps + 1 <? nlen s) || (nlen s =? ps) then s ++ [47] else s).
   destruct Hs as (H1 & H2 & H3).
